@@ -884,6 +884,20 @@ static int32_t tls13ParseHandshakeMessage(ssl_t *ssl,
     hsMsgStart = pb.buf.start;
 # endif
 
+    /* Same limit as the TLS 1.2 and below path (parseSSLHandshake): without
+       it a 4-byte header makes us allocate a 16 MB reassembly buffer. */
+# ifdef SSL_DEFAULT_IN_HS_SIZE
+    if (hsMsgLen > SSL_DEFAULT_IN_HS_SIZE)
+# else
+    if (hsMsgLen > 65536)
+# endif
+    {
+        psTraceErrr("Maximum handshake message length exceeded\n");
+        ssl->err = SSL_ALERT_DECODE_ERROR;
+        rc = MATRIXSSL_ERROR;
+        goto exit;
+    }
+
     rc = psParseCanRead(&pb, hsMsgLen);
     if (rc == 0)
     {
